@@ -3,6 +3,8 @@ import PeptVerif.Model.AbsMass
 Model of `mass_calc.condense_to_mass_mods` (C18), Mathlib-free, as the function is written after the repair
 `fix: condense_to_mass_mods counted charge, adducts, unknown-position, interval and terminal static mods once per residue`:
 
+0. (second repair `fix: … isotope-label shift of the terminal H and OH once per residue`) the label shift of the
+   terminal H and OH is taken off every piece and added once to the terminal sums,
 1. static rules are written out (`condense_static_mods(inplace=False)`, a copy),
 2. charge, adducts, unknown-position mods, intervals, terminal and labile mods are popped,
 3. the rest is split into one-residue pieces; piece `i` gets `round(mass(piece) - mass(stripped piece), precision)`
@@ -77,14 +79,23 @@ def pieceDiff (E : Env) (piece : Annotation) : Except Err Rat :=
   | .error e, _ => .error e
   | _, .error e => .error e
 
-/-- the loop: `(index, rounded shift)` for every piece whose difference is significant -/
-def pieceShifts (E : Env) (p : Nat) : List Annotation → Nat → Except Err (List (Int × List Mod))
+/-- label shift of a terminal group: `chem_mass(apply_isotope_mods_to_composition(comp, labels)) - chem_mass(comp)` -/
+def termLabelShift (E : Env) (comp : Comp) : Option (List Mod) → Except Err Rat
+  | none => .ok 0
+  | some l =>
+    match parseIsotopeMods E.knownLabel l with
+    | .error e => .error e
+    | .ok lm => .ok (chemMass E.em (relabel comp lm) - chemMass E.em comp)
+
+/-- the loop: `(index, rounded shift)` for every piece whose difference (terminal label shifts `t` taken off) is significant -/
+def pieceShifts (E : Env) (p : Nat) (t : Rat) : List Annotation → Nat → Except Err (List (Int × List Mod))
   | [], _ => .ok []
   | piece :: r, i =>
     match pieceDiff E piece with
     | .error e => .error e
-    | .ok d =>
-      match pieceShifts E p r (i + 1) with
+    | .ok d0 =>
+      let d := d0 - t
+      match pieceShifts E p t r (i + 1) with
       | .error e => .error e
       | .ok rest =>
         if absQ d > threshold then .ok ((Int.ofNat i, [⟨.flt (decText (roundNum d p) p), 1⟩]) :: rest)
@@ -95,18 +106,28 @@ def condenseInterval (E : Env) (p : Nat) (iv : Interval) : Interval :=
   | some l => { iv with mods := some [roundedSumMod E l p] }
   | none => iv
 
+/-- a terminus: the rounded sum of its mods, plus the label shift of its H / OH when that is significant -/
+def termMods (E : Env) (p : Nat) (mods : Option (List Mod)) (shift : Rat) : Option (List Mod) :=
+  if absQ shift > threshold then
+    some [⟨.flt (decText (roundNum (sumMods E (mods.getD []) + shift) p) p), 1⟩]
+  else mods.map fun l => [roundedSumMod E l p]
+
 /-- `new_annotation` just before it is serialised -/
 def condenseToMassAnn (E : Env) (a : Annotation) (p : Nat) : Except Err Annotation :=
   match condenseStatic a with
   | .error e => .error e
   | .ok c =>
-    match pieceShifts E p (splitPieces (core c)) 0 with
+    match termLabelShift E E.ntermComp c.isotope, termLabelShift E E.ctermComp c.isotope with
+    | .error e, _ => .error e
+    | _, .error e => .error e
+    | .ok nts, .ok cts =>
+    match pieceShifts E p (nts + cts) (splitPieces (core c)) 0 with
     | .error e => .error e
     | .ok shifts =>
       .ok { seq := c.seq,
             internal := (match shifts with | [] => none | l => some l),
-            nterm := c.nterm.map fun l => [roundedSumMod E l p],
-            cterm := c.cterm.map fun l => [roundedSumMod E l p],
+            nterm := termMods E p c.nterm nts,
+            cterm := termMods E p c.cterm cts,
             labile := c.labile.map fun l => [roundedSumMod E l p],
             unknown := c.unknown.map fun l => [roundedSumMod E l p],
             intervals := c.intervals.map fun l => l.map (condenseInterval E p),
